@@ -68,7 +68,7 @@ void snoopy_message_generateFromFormat (
     char const * fmtPos_nextFormatTagClose;
     int   retVal;
 
-    dataSourceMsgBufSize = dataSourceMsgMaxLength+1;
+    dataSourceMsgBufSize = dataSourceMsgMaxLength;   // All callers already pass "max length + 1" (room for the terminating null character)
     dataSourceMsg = malloc(dataSourceMsgBufSize);
 
     fmtPos_cur           = logMessageFormat;
